@@ -257,6 +257,11 @@ func runC16(c *Ctx) {
 	c.Rule("C16-D6", "the caller's configuration is not rearranged in place (F52): dial uses ClientConfig.Transports only to read, measure or copy it — connect and the upgrade goroutine re-slice and shift the list they work on", 1)
 	callerTransportsNotMutated(c, "C16-D6")
 
+	c.Rule("C16-D7", "caller-supplied options are made safe before a lock is taken by hand (F58): in package adapter no field of a *BroadcastOptions PARAMETER is read while a mutex is held by a non-deferred Lock, and apply normalises the options before it locks", 2)
+	callerOptionsNormalisedBeforeLock(c, "C16-D7")
+	c.Rule("C16-D8", "the caller's shared option structs are not written (F59): no transport stores into a DialOptions / AcceptOptions / *Config reached through a field of its own", 1)
+	sharedDialOptionsNotWritten(c, "C16-D8")
+
 	c.Rule("C16-D3", "no user callback under a lock: application code (handlers, middlewares, authenticator, adapter callbacks, Engine.IO callbacks) is never invoked while the library holds one of its own mutexes — a handler may call any exported method, several of which take those mutexes", 25)
 	{
 		n := 0
